@@ -256,15 +256,15 @@ def RUnique (v : Vote) : Prop :=
 def RPeriod (v : Vote) : Prop := (localOf pre v.n).period = v.p
 
 /-- a soft vote is issued while `p.Step = soft`, i.e. before any next vote of the period.
-(For the fast-recovery votes late/redo/down — which `issueFastVote` casts whatever `p.Step` is — this needs
-the timer-order assumption: no `fastTimeout` is handled before the period's soft timeout.) -/
+(`issueFastVote` advances `p.Step` past `soft` when it casts a late/redo/down vote, so this also holds for
+fast-recovery votes handled early.) -/
 def RBeforeNext (v : Vote) : Prop :=
   ∀ v' ∈ votes pre, v'.n = v.n → v'.p = v.p → v'.s.isNext = false
 
 /-- a cert vote is issued while `p.Step ≤ cert`: no next vote of the period precedes it — except a
 fast-recovery `late` vote, which carries the same (committable) value.  Stated as: every earlier next-type
-vote of the node in this period is for the same value.  (For `redo`/`down` this needs the timer-order
-assumption: no `fastTimeout` is handled while `p.Step ≤ cert` unless the value is already committable.) -/
+vote of the node in this period is for the same value.  (`issueFastVote` sets `p.Step := next` when it casts
+`redo`/`down` at `p.Step ≤ cert`, so no cert vote can follow them.) -/
 def RCertAfterNext (v : Vote) : Prop :=
   ∀ v' ∈ votes pre, v'.n = v.n → v'.p = v.p → v'.s.isNext = true → v'.x = v.x
 
